@@ -7,6 +7,7 @@ mod keys;
 mod layout;
 mod limits;
 mod snap;
+mod symrec;
 mod util;
 
 fn main() {
@@ -25,6 +26,7 @@ fn main() {
         "limits-time" => limits::cmd_time(&args[2]),
         "snap-replay" => snap::cmd_replay(&args[2], &args[3]),
         "expr-replay" => expr::cmd_replay(&args[2], &args[3]),
+        "sym-record" => symrec::cmd_record(args[2].parse().unwrap(), &args[3]),
         "auth-replay" => auth::cmd_replay(&args[2], &args[3]),
         "dlog-replay" => dlog::cmd_replay(&args[2], &args[3]),
         "chain-honest" => chain::cmd_honest(&args[2], &args[3]),
